@@ -265,6 +265,13 @@ class Ctx:
             self.atom_facts.append(z3.Implies(at.arg < 1, v < 0))
             self.atom_facts.append(z3.Implies(at.arg > 1, v > 0))
             self.atom_facts.append(z3.Implies(at.arg == 1, v == 0))
+            if getattr(self, "log_monotone", False):
+                # strict monotonicity between every pair of log atoms (sound; switched on by harnesses that order logs)
+                for o in self.atoms.values():
+                    if o.fn == "log" and o is not at:
+                        self.atom_facts.append(z3.Implies(o.arg < at.arg, o.var < v))
+                        self.atom_facts.append(z3.Implies(o.arg > at.arg, o.var > v))
+                        self.atom_facts.append(z3.Implies(o.arg == at.arg, o.var == v))
 
     # -- obligations (definedness) --
     def oblige(self, kind, cond):
